@@ -346,6 +346,8 @@ def check_hypotheses(ctx, cases):
             ctx.hist["programs_in_clean_fragment"] += 1     # the both-directions theorems (Props/Clean, SearchComplete) apply
         if d.get("straight") == "1" and "(" in c.pattern:
             ctx.hist["programs_in_straight_capture_fragment"] += 1   # C03b / C03c apply (groups reported = first path's)
+        if d.get("clean4") == "1":
+            ctx.hist["programs_in_clean4_fragment"] += 1    # … and general reluctant repeats over deterministic bodies (Props/Clean4)
         if d.get("clean3") == "1":
             ctx.hist["programs_in_clean3_fragment"] += 1    # … and greedy min>=1 repeats over deterministic bodies (Props/Clean3*)
         if d.get("clean2") == "1":
@@ -577,6 +579,21 @@ def c04_streams(ctx):
                  ("\U0001F600", "x\U0001F600y\U0001F600"), ("é", "ééx")]:
         cs = [Case(p, "", "analyze", s), Case(p, "", "tokenize", s), Case(p, "", "replace", s, "$0"), Case(p, "", "replace", s, "-")]
         groups.append(Group(cs, {"features": set(), "input": s, "R": "-"}))
+    # the three scan functions must see ONE sequence of spans even where a search depends on what earlier searches of the
+    # same matcher visited (zero-length-match memo): a min-0 variable repeat inside a counted group, a long branch that
+    # overshoots and fails, a short alternative that wins — the next search re-enters the repeat at a visited offset
+    memo_pats = ["(?:a(?:b|cd)*){2}c|a", "(?:a(?:b|cd)*){1,2}c|a", "(?:(?:a|bc)*a){2}d|a", "(?:a(?:bc|d)*){2}x|a|d", "(?:[ab](?:c|dd)*){2}e|[ab]",
+                 "(?:a(?:b|cd)*)+c|a", "(?:a(?:b|cd)*?){2}c|a", "(?:a(?:b|cd)?){2}c|a", "(?:(?:b|cd)*a){2}c|a|c"]
+    pool = [x for x in rxlib.strings_upto("acd", 5) if len(x) >= 2] + [x for x in rxlib.strings_upto("ab", 4) if len(x) >= 2]
+    for p in memo_pats:
+        try:
+            ast = props2.parse_full(p)
+        except Exception:
+            continue
+        fe = features(ast)
+        for s in r.sample(pool, ctx.scale(40, 300)) + ["aaac", "aaacaaac", "aaad", "aacdac", "aaae"]:
+            cs = [Case(p, "", "analyze", s), Case(p, "", "tokenize", s), Case(p, "", "replace", s, "$0"), Case(p, "", "replace", s, "-")]
+            groups.append(Group(cs, {"features": fe, "input": s, "R": "-", "ast": ast}))
     return groups
 
 
@@ -935,6 +952,36 @@ def line_groups(ctx, n, apis, modes=("opt",)):
     return gs
 
 
+def noop_groups(ctx, n, apis, modes=("opt",)):
+    """a repeat over a character / class, then a piece that can match only the empty string or has an empty branch
+    (`(?:)`, `b{0}`, `(?:b|)`, `^?`, `()*` …), then something that starts like the repeated term: the repeat must give
+    characters back — whatever the first set of the no-op piece is taken to be"""
+    r = ctx.rnd
+    gs = []
+    xs = ["a", "[ab]", "a", "[abc]"]
+    reps = ["*", "+", "?", "{1,2}", "{0,3}", "*?"]
+    noops = ["(?:)", "b{0}", "(?:|b)", "(?:b|)", "^?", "$*", "()*", "b{0,0}", "(?:c|)", "(?:)(?:)", "(?:b{0}|c)", "(?:^|)", "()"]
+    for i in range(n):
+        x, q, z = r.choice(xs), r.choice(reps), r.choice(noops)
+        pre, suf = r.choice(["", "", "^", "c"]), r.choice(["", "", "$", "b"])
+        f = r.choice(["", "", "i", "m"])
+        nxt = r.choice(["a", "a", "ab", "[ab]"])
+        if "i" in f and r.random() < 0.5:
+            nxt = nxt.upper() if nxt != "[ab]" else "A"
+        p = pre + x + q + z + nxt + suf
+        try:
+            ast = props2.parse_full(p)
+        except Exception:
+            ast = None
+        if ast is None:
+            continue
+        fe = features(ast)
+        for s in r.sample(["a", "aa", "aab", "baa", "caab", "ab", "caa", "aaa", "cab", "b", "ba", "cA" if "i" in f else "ca"], 5):
+            cs = [Case(p, f, api, s, repl, mode=m) for m in modes for api, repl in apis]
+            gs.append(Group(cs, {"features": fe, "input": s, "ast": ast, "flags": f, "kind": "noop"}))
+    return gs
+
+
 def abnormal(a):
     return a in ("PANIC", "HANG", "ABORT", "MISSING") or a.startswith("ERR:Internal")
 
@@ -979,12 +1026,14 @@ def c01_streams(ctx):
     if ctx.quick():
         gs = random_groups(ctx, 4000, [("is_match", "")])
         gs += stress_groups(ctx, 2500, [("is_match", "")])
+        gs += noop_groups(ctx, 150, [("is_match", "")])
         gs += prefix_groups(ctx, 150, [("is_match", "")]) + line_groups(ctx, 120, [("is_match", "")])
         gs += backref_search_groups(ctx, 160)
         gs += small_groups(ctx, 3, 4, [""], [("is_match", "")])
     else:
         gs = random_groups(ctx, 60000, [("is_match", "")])
         gs += stress_groups(ctx, 40000, [("is_match", "")])
+        gs += noop_groups(ctx, 2500, [("is_match", "")])
         gs += prefix_groups(ctx, 2500, [("is_match", "")]) + line_groups(ctx, 2000, [("is_match", "")])
         gs += backref_search_groups(ctx, 2500)
         gs += small_groups(ctx, 4, 5, ["", "m"], [("is_match", "")])
@@ -1033,6 +1082,7 @@ def c02_streams(ctx):
     n = ctx.scale(3000, 50000)
     gs = random_groups(ctx, n, [("analyze", "")], flags=["", "", "i", "m", "s", "im"])
     gs += stress_groups(ctx, ctx.scale(1500, 25000), [("analyze", "")])
+    gs += noop_groups(ctx, ctx.scale(100, 2000), [("analyze", "")])
     gs += prefix_groups(ctx, ctx.scale(120, 2000), [("analyze", "")]) + line_groups(ctx, ctx.scale(100, 1500), [("analyze", "")])
     # a min-0, finite-max group over an ambiguous body reached twice at one position (equal-length alternatives / optional prefix)
     for p in ["(?:x|x)(?:a|ab)?c", "(?:x|[xz])(?:a|ab)?c", "[a-z]*-(?:ab|a|bc){0,2}!", "(?:<|<<?)(?:ab|a|bc){0,2}>", "(?:b|b)(?:a|aa){0,2}c"]:
@@ -1179,6 +1229,16 @@ def c03_shape_groups(ctx):
         repl = "<" + "|".join("$%d" % k for k in range(1, ng + 1)) + ">"
         gs.append(Group([Case(p, "", "analyze", s), Case(p, "", "replace", s, repl)],
                         {"features": features(ast), "input": s, "ast": ast, "flags": "", "ngroups": ng, "repl": repl}))
+    # an alternative that is exactly one capturing group matches locally, what follows the alternation fails, a LATER
+    # alternative is selected: the abandoned group must not contribute to `$N` or to the group tree
+    pool = [x for x in rxlib.strings_upto("abc", 4) if x]
+    for p in ["(?:(a)|(ab))c", "((a)|(ab))c", "(?:(a)|(a)b)c", "(?:(a+)|(a+)b)c", "x?(?:(a)|(b)|(ab))c", "(?:(a)|(ab)|(abc))$", "(?:(a)|a(b))c", "(?:(a)|(ab))(?:(c)|(cb))a"]:
+        ast = props2.parse_simple(p)
+        ng = ngroups_of(ast)
+        repl = "<" + "|".join("$%d" % k for k in range(1, ng + 1)) + ">"
+        for s in (r.sample(pool, 45) + ["abc", "aabc", "abca", "abcba"] if ctx.quick() else pool):
+            gs.append(Group([Case(p, "", "analyze", s), Case(p, "", "replace", s, repl)],
+                            {"features": features(ast), "input": s, "ast": ast, "flags": "", "ngroups": ng, "repl": repl}))
     return gs
 
 
@@ -1369,6 +1429,13 @@ def c06_streams(ctx):
               "(?:^|a)*?c", "x(?:a|$)+?c", "(a*)\\1*?c", "(?:^^)+?1", "(^)+?a", "a(?:$$){2,}?b", "(?:^|a)+?c", "(?:a|^){2,}?b", "(?:$)+?x", "(?:^|$)*?a",
               "(?:\\1|a)*?(b)c" if False else "(b)(?:\\1|a)*?c", "(?:^){2}?a", "(?:(?:^)+?a)+?b"]:
         for s in ["", "a", "aaaa", "ab", "cc", "c1", "abc", "aaab", "bc", "xa", "ba", "a\nc", "bcb"]:
+            cs = [Case(p, "", "is_match", s), Case(p, "", "tokenize", s, limit=40), Case(p, "", "analyze", s, limit=40), Case(p, "", "replace", s, "-")]
+            gs.append(Group(cs, {"features": {"rep_nullable_body"}, "input": s}))
+    # a reluctant repeat whose body first consumes input and can only match zero-width afterwards: it stalls at a
+    # position LATER than its first result, in front of a continuation that fails there but occurs further on
+    for p in ["^(?:a|b?)*?c", "(?:a|b?)+?c", "^(b*)(?:a|\\1)*?c", "(?:a|b*)*?c", "(?:ab|c?)+?d", "x(?:a|b?)*?c", "(?:a|^|b?){1,}?c", "(?:[ab]|c??)*?d",
+              "^(?:a|$|b?)*?c", "(?:a|(?:))+?c", "(?:a|b{0})+?c", "(?:(a)|b?)*?c\\1"]:
+        for s in ["aaxc", "aaxac", "aadc", "xaaxc", "abxd", "aax", "ababxd", "a\nxc", "aaaaaaxc", "xc", "abcxd"]:
             cs = [Case(p, "", "is_match", s), Case(p, "", "tokenize", s, limit=40), Case(p, "", "analyze", s, limit=40), Case(p, "", "replace", s, "-")]
             gs.append(Group(cs, {"features": {"rep_nullable_body"}, "input": s}))
     return gs
